@@ -22,7 +22,7 @@ static void per_type(const char* t)
 {
     using B = xs::batch<T, A>;
     using BB = xs::batch_bool<T, A>;
-    std::string s = std::string(VARCH_NAME) + "/" + t;
+    std::string s = std::string(A::name()) + "/" + t;
     rel(B::size * sizeof(T) == sizeof(typename xs::types::simd_register<T, A>::register_type) || sizeof(T) * B::size == sizeof(B), "size*sizeof(T) == register width", s);
     rel(B::size * sizeof(T) == sizeof(B), "batch occupies exactly size*sizeof(T) bytes", s);
     rel(BB::size == B::size, "batch_bool lane count == batch lane count", s);
@@ -38,6 +38,9 @@ static void per_type(const char* t)
     rel(alignof(B) <= A::alignment(), "alignof(batch) <= A::alignment()", s);
     rel(std::is_same<xs::simd_return_type<T, T, A>, B>::value, "simd_return_type<T,T>", s);
     rel(std::is_same<xs::simd_return_type<bool, T, A>, BB>::value, "simd_return_type<bool,T>", s);
+    rel(std::is_same<typename xs::simd_return_type<T, T, A>::arch_type, A>::value && std::is_same<typename xs::simd_return_type<bool, T, A>::arch_type, A>::value, "simd_return_type keeps the architecture", s);
+    rel(std::is_same<typename B::arch_type, A>::value && std::is_same<typename BB::arch_type, A>::value, "batch::arch_type", s);
+    rel(std::is_same<typename B::batch_bool_type, BB>::value, "batch::batch_bool_type", s);
     // an aligned load/store at exactly A::alignment() (not a larger power of two) must be legal
     {
         alignas(128) unsigned char buf[512];
@@ -54,7 +57,7 @@ static void per_type(const char* t)
 template <class A, class T>
 static void per_float_type(const char* t)
 {
-    std::string s = std::string(VARCH_NAME) + "/" + t;
+    std::string s = std::string(A::name()) + "/" + t;
     using B = xs::batch<T, A>;
     using BC = xs::batch<std::complex<T>, A>;
     rel(BC::size == B::size, "complex batch lane count == real batch lane count", s);
@@ -63,13 +66,17 @@ static void per_float_type(const char* t)
     rel(std::is_same<typename BC::batch_bool_type, xs::batch_bool<T, A>>::value, "complex mask type", s);
     rel(sizeof(xs::as_float_t<xs::as_integer_t<T>>) == sizeof(T) && std::is_floating_point<xs::as_float_t<xs::as_integer_t<T>>>::value, "as_float_t: floating type of the same width", s);
     rel(std::is_same<xs::simd_return_type<std::complex<T>, std::complex<T>, A>, BC>::value, "simd_return_type<complex,complex>", s);
+    rel(std::is_same<xs::simd_return_type<std::complex<T>, T, A>, BC>::value, "simd_return_type<complex,real>", s);
+    rel(std::is_same<xs::simd_return_type<bool, std::complex<T>, A>, xs::batch_bool<T, A>>::value, "simd_return_type<bool,complex> is the mask of the same architecture", s);
+    rel(xs::simd_return_type<bool, std::complex<T>, A>::size == BC::size, "simd_return_type<bool,complex> lane count", s);
+    rel(std::is_same<typename BC::arch_type, A>::value, "complex batch arch_type", s);
 }
 
 template <class A>
 static void per_arch()
 {
     size_t al = A::alignment();
-    std::string s = VARCH_NAME;
+    std::string s = A::name();
     rel(al && !(al & (al - 1)), "alignment is a power of two", s);
     rel(!A::requires_alignment() || al >= sizeof(xs::batch<float, A>), "alignment >= register bytes when alignment is required", s);
     rel(A::supported(), "architecture is supported by this build", s);
@@ -135,6 +142,33 @@ static void order(xs::arch_list<As...>, const char* list)
     rel(std::is_same<typename xs::arch_list<As...>::best, typename std::tuple_element<0, std::tuple<As...>>::type>::value, "arch_list::best is the head", list);
 }
 
+// arch_list::alignment() must be the maximum for ANY list, not only best-first ones
+template <class... As>
+static void list_alignment(xs::arch_list<As...>, const char* name)
+{
+    size_t mx = 0;
+    const size_t als[] = { As::alignment()..., 0 };
+    for (size_t a : als)
+        if (a > mx)
+            mx = a;
+    rel(xs::arch_list<As...>::alignment() == mx, "arch_list::alignment() is the maximum member alignment", name);
+    rel(std::is_same<typename xs::arch_list<As...>::best, typename std::tuple_element<0, std::tuple<As...>>::type>::value, "arch_list::best is the head", name);
+}
+static void arbitrary_lists()
+{
+    list_alignment(xs::arch_list<xs::avx2, xs::sse2, xs::avx512f> {}, "avx2,sse2,avx512f");
+    list_alignment(xs::arch_list<xs::sse2, xs::avx512f, xs::avx2> {}, "sse2,avx512f,avx2");
+    list_alignment(xs::arch_list<xs::sse2, xs::avx, xs::avx512bw> {}, "sse2,avx,avx512bw");
+    list_alignment(xs::arch_list<xs::avx512f, xs::avx, xs::sse2> {}, "avx512f,avx,sse2");
+    list_alignment(xs::arch_list<xs::sse4_2, xs::generic, xs::avx2> {}, "sse4_2,generic,avx2");
+    list_alignment(xs::arch_list<xs::avx, xs::sse3, xs::avx2, xs::sse2, xs::avx512dq, xs::ssse3> {}, "avx,sse3,avx2,sse2,avx512dq,ssse3");
+    list_alignment(xs::arch_list<xs::generic, xs::sse2> {}, "generic,sse2");
+    list_alignment(xs::arch_list<xs::sse2, xs::generic> {}, "sse2,generic");
+    list_alignment(xs::arch_list<xs::fma3<xs::avx2>, xs::avx512vnni<xs::avx512bw>, xs::sse4_1> {}, "fma3<avx2>,avx512vnni<avx512bw>,sse4_1");
+    list_alignment(xs::arch_list<xs::sse2> {}, "sse2");
+    list_alignment(xs::arch_list<xs::avx512vbmi2> {}, "avx512vbmi2");
+}
+
 template <class T, size_t N>
 static void sized(const char* t)
 {
@@ -160,7 +194,9 @@ void vh::unit_main()
     g_st = &st;
     if (!st.on)
         return;
-    per_arch<ARCH>();
+    // every architecture this build supports, not only the best one: traits must honour a non-default architecture
+    xs::supported_architectures::for_each([](auto a) { per_arch<decltype(a)>(); });
+    arbitrary_lists();
     order(xs::supported_architectures {}, "supported_architectures");
     order(xs::all_x86_architectures {}, "all_x86_architectures");
     order(xs::all_architectures {}, "all_architectures");
